@@ -35,6 +35,8 @@ def gen_case(rng, k, big, only=None):
         da = 255                      # broadcast (BAM): theorem C01_bam_closed_loop_delivers
         if n > 400:
             n = rng.randint(9, 120)
+    if fd and rng.random() < 0.35:
+        da = 255                      # FD broadcast: theorem C02_bam_closed_loop_delivers
     return dict(n=n, sa=sa, da=da, pf=pf, dp=rng.choice([0, 0, 1]), prio=rng.randint(0, 7),
                 wa=rng.choice(WINDOWS + [rng.randint(1, 255)]), wb=rng.choice(WINDOWS + [rng.randint(1, 255)]),
                 lat=rng.choice([1, 500]), seed=rng.getrandbits(30), fnone=rng.random() < 0.3, fd=fd)
@@ -65,7 +67,7 @@ def observe_impl(sc, res):
 def model_text(c, data):
     if c.get('fd'):
         a = 'sub22 (init_node22 %d None None) 1 (FAddr %d)' % (c['wa'], c['sa'])
-        b = 'sub22 (init_node22 %d None None) 7 (FAddr %d)' % (c['wb'], c['da'])
+        b = 'sub22 (init_node22 %d None None) 7 (FAddr %d)' % (c['wb'], c['da'] if c['da'] != 255 else (c['sa'] + 1) % 254)
         if c['fnone']:
             b = 'sub22 (%s) 9 FNone' % b
         nseg = (c['n'] + 59) // 60
